@@ -68,6 +68,22 @@ def generate(seed, mode):
                 ops.append({'op': 'cbases', 'c': c, 'bases': [o.randrange(nC) for _ in range(o.choice([0, 1, 2]))], 'k': k})
             else:
                 ops.append({'op': 'rebuildcache', 'c': c, 'k': k})
+    # repeat bias: three in ten registrations re-use the key (and factory / component) of an earlier registration of the same
+    # kind -- identical duplicates, replacements, the same factory twice under one key -- which uniform choice almost never gives
+    rep = S('repeat')
+    seen = {}
+    for op in ops:
+        kind = op['op']
+        if kind in ('regU', 'regA', 'regS', 'regH'):
+            prev = seen.setdefault(kind, [])
+            if prev and rep.random() < 0.3:
+                src = rep.choice(prev)
+                for fld in ('u', 'f', 'req', 'p', 'n'):
+                    if fld in src and not (fld in ('u', 'f') and rep.random() < 0.25):
+                        op[fld] = src[fld]
+                if rep.random() < 0.5:
+                    op['c'] = src['c']
+            prev.append(dict(op))
     return {'machine': MACHINE, 'seed': seed, 'world': {'comps': comps}, 'ops': ops}
 
 
